@@ -335,7 +335,7 @@ fn run(args: &Args, rep: &mut Report) {
         prop_par(
             "segment-lists",
             args.seed,
-            tier.pick(40_000, 1_000_000),
+            tier.pick(40_000, 10_000_000),
             arb_segs,
             |segs, _| match check(segs) {
                 Ok(nt) => Verdict::ok(nt.then(|| digest_str(&render_input(segs)))),
